@@ -1096,6 +1096,128 @@ def check_large(case):
     return [{'key': k, 'what': w[:400], 'case': dict(case)} for (k, w) in V.problems[:6]], len(ops)
 
 
+# ------------------------------------------------------------ long batches --
+def long_batches(kind):
+    """(name, n, batch, position of the refused pair or None): add_edges_from
+    with 30..70 pairs, neighbours of a common vertex listed in decreasing and
+    in mixed order, repeated pairs, and one pair that must be refused at the
+    start, in the middle or at the end."""
+    n = 24
+    hubs = (3, 17)
+    desc = [(h, v) for h in hubs for v in range(n, 0, -1) if v != h]            # 46 pairs
+    mixed = [(v if i % 2 else h, h if i % 2 else v)
+             for i, (h, v) in enumerate((h, (7 * j) % n + 1) for h in hubs for j in range(n))
+             if v != h]
+    if kind == 'bipartite':
+        desc = [(h, v) for h in hubs for v in range(n, 0, -1)]
+        mixed = [(h, (7 * j) % n + 1) for h in hubs for j in range(n)]
+    illegal = (n + 1, 2) if kind != 'simple' else (5, 5)
+    out = []
+    for nm, b in (('descending', desc), ('mixed', mixed), ('repeated', desc[:20] + desc[10:36])):
+        out.append((nm, n, b, None))
+        for pos in (0, 33, len(b)):
+            out.append(('%s+refused@%d' % (nm, pos), n, b[:pos] + [illegal] + b[pos:], pos))
+    out.append(('short+refused@5', n, desc[:5] + [illegal] + desc[5:9], 5))
+    return out
+
+
+def check_long_batch(case):
+    from cnfgen.graphs import Graph, DirectedGraph, BipartiteGraph
+    kind, form = case['kind'], case['form']
+    out = []
+    for (nm, n, batch, pos) in long_batches(kind):
+        if case.get('only') and nm != case['only']:
+            continue
+        if kind == 'simple':
+            G = Graph(_fresh(n))
+        elif kind == 'directed':
+            G = DirectedGraph(_fresh(n))
+        else:
+            G = BipartiteGraph(_fresh(n), _fresh(n))
+        V = Views(CLSNAME[kind], prefix='batch:')
+        G.add_edge(1, 2)
+        E = {(1, 2)}
+        norm_edge = (lambda u, v: (min(u, v), max(u, v))) if kind == 'simple' else (lambda u, v: (u, v))
+        pairs = [(_fresh(u), _fresh(v)) for (u, v) in batch]
+        got = _call(G.add_edges_from, pairs if form == 'list' else (p_ for p_ in pairs))
+        # add_edges_from is the sequence of add_edge calls it is written as:
+        # the pairs before a refused one are in, the others are not
+        upto = len(batch) if pos is None else pos
+        for (u, v) in batch[:upto]:
+            E.add(norm_edge(u, v))
+        if pos is None and got[0] == 'exc':
+            V.bad('add_edges_from', 'legal:refused', '%s batch of %d legal pairs raised %s' % (nm, len(batch), got[1]))
+        elif pos is not None and got[0] != 'exc':
+            V.bad('add_edges_from', 'illegal-later:accepted', '%s batch accepted the pair %r' % (nm, batch[pos]))
+        elif pos is not None and got[1] != 'ValueError':
+            V.bad('add_edges_from', 'illegal-later:exception:' + got[1], '%s batch raised %s' % (nm, got[1]))
+        if not V.problems:
+            # the caller goes on with the object
+            for (u, v) in ((2, 3), (17, 1) if kind != 'simple' else (1, 17)):
+                if _call(G.add_edge, _fresh(u), _fresh(v))[0] != 'exc':
+                    E.add(norm_edge(u, v))
+            if kind == 'simple':
+                if _call(G.remove_edge, 3, 24)[0] != 'exc':
+                    E.discard((3, 24))
+                check_simple(G, n, E, V)
+            elif kind == 'directed':
+                check_directed(G, n, E, V)
+            else:
+                check_bipartite(G, (n, n), E, V, kind)
+        for (k, w) in V.problems[:3]:
+            c = dict(case)
+            c['only'] = nm
+            out.append({'key': k, 'what': ('[%s batch] ' % nm) + w[:400], 'case': c})
+    return out
+
+
+def check_overlapping_walks(case):
+    """Two walks over ONE object returned by edges() that overlap in time
+    (nested loops, zip(E, E), an abandoned walk followed by a full one): each
+    walk lists every edge."""
+    from cnfgen.graphs import Graph, DirectedGraph, BipartiteGraph
+    kind, n, edges = case['kind'], case['n'], [tuple(e) for e in case['edges']]
+    if kind == 'simple':
+        G = Graph(n)
+    elif kind == 'directed':
+        G = DirectedGraph(n)
+    else:
+        G = BipartiteGraph(n, n)
+    for (u, v) in edges:
+        G.add_edge(u, v)
+    out = []
+
+    def bad(sym, what):
+        out.append({'key': '%s.edges:overlapping-walks:%s' % (CLSNAME[kind], sym), 'what': what, 'case': dict(case)})
+    try:
+        want = list(G.edges())
+        E = G.edges()
+        outer = []
+        inner_lens = []
+        for e in E:
+            outer.append(e)
+            inner_lens.append(len([f for f in E]))
+        if outer != want or any(k != len(want) for k in inner_lens):
+            bad('nested', 'nested loops over one edges() object: outer walk %r, inner walks of %r edges, '
+                          'the graph has %r' % (outer, inner_lens, want))
+        E = G.edges()
+        z = list(zip(E, E))
+        if z != [(e, e) for e in want]:
+            bad('zip', 'zip(E, E) = %r for edges %r' % (z, want))
+        E = G.edges()
+        it = iter(E)
+        if want:
+            next(it)
+        full = list(E)
+        rest = list(it)
+        if full != want or rest != want[1:]:
+            bad('abandoned', 'after one step of an earlier walk, list(E) = %r and the earlier walk continues '
+                             'with %r; edges %r' % (full, rest, want))
+    except Exception as e:
+        bad('exception:' + type(e).__name__, repr(e))
+    return out
+
+
 # ---------------------------------------------- from_networkx, any node order --
 def nx_bipartite(L, Rr, edges, order, orient):
     import networkx
@@ -1354,6 +1476,23 @@ def run_extra(args, R):
         R.case(sample={'part': 'large', 'kind': args['kind'], 'operations': nops}, nontrivial=True)
         R.extend(vs)
         return
+    if args['what'] == 'batch':
+        for form in ('list', 'generator'):
+            case = {'part': 'batch', 'kind': args['kind'], 'form': form}
+            R.extend(check_long_batch(case))
+            nb = len(long_batches(args['kind']))
+            R.stats['long_batches'] += nb
+            R.stats['executions'] += nb
+            R.case(sample=case, nontrivial=True, n=nb)
+        for n in range(0, 4):
+            gen = {'simple': scope_.simple_graphs(n), 'directed': scope_.digraphs(n, loops=True),
+                   'bipartite': scope_.bipartite_graphs(n, n) if n <= 2 else []}[args['kind']]
+            for es in gen:
+                case = {'part': 'walks', 'kind': args['kind'], 'n': n, 'edges': [list(e) for e in es]}
+                R.extend(check_overlapping_walks(case))
+                R.stats['executions'] += 3
+                R.case(sample=case if R.evals % 50 == 0 else None, nontrivial=len(es) > 0)
+        return
     for n in range(0, 4):
         for es in scope_.simple_graphs(n):
             case = {'part': 'nxplain', 'n': n, 'edges': [list(e) for e in es], 'directed': False}
@@ -1392,6 +1531,7 @@ def shards(tier, seed):
            for i, (lab, kind, init, cap, afe) in enumerate(runs(tier, seed))]
     for kind in ('simple', 'directed', 'bipartite'):
         out.append(('large:' + kind, 'run_extra', {'what': 'large', 'kind': kind}))
+        out.append(('batch:' + kind, 'run_extra', {'what': 'batch', 'kind': kind}))
     out.append(('nx-orders', 'run_extra', {'what': 'nx'}))
     for kind, depth in (('simple', 4 if tier == 'thorough' else 3), ('directed', 3), ('bipartite', 3)):
         for i in range(4):
@@ -1479,6 +1619,10 @@ def replay(case):
         return check_large(case)[0]
     if case.get('part') == 'nx':
         return check_from_networkx(case)
+    if case.get('part') == 'batch':
+        return check_long_batch(case)
+    if case.get('part') == 'walks':
+        return check_overlapping_walks(case)
     if case.get('part') == 'held':
         return check_held_view(case)
     if case.get('part') == 'nxplain':
